@@ -191,7 +191,7 @@ _MODELLED = ("Modelled, not verified: the C++ itself; the theorems are about the
 
 PROPS = {
     "C01": dict(
-        gens=[("multipath", gen.gen_C01, 0.6), ("ev-repeat", gen.gen_C01_ev, 0.4), ("build", gen.gen_C03, 0.2), ("setalg", gen.gen_C04, 0.2)],
+        gens=[("multipath", gen.gen_C01, 0.6), ("ev-repeat", gen.gen_C01_ev, 0.4), ("ir-full-storage", gen.gen_C01_irfull, 0.4), ("build", gen.gen_C03, 0.2), ("setalg", gen.gen_C04, 0.2)],
         quick=60, thorough=600,
         level_text="Proved for every domain, rule (fully/quasi/identity) and pair of diagrams: reduced diagrams "
                    "denoting the same function are identical, and every function has a reduced diagram "
@@ -275,7 +275,7 @@ _AUDIT_RULE = ("mixed histories (constructions, apply operations across forests,
                "and distinct canonical diagrams")
 
 PROPS["C02"] = dict(
-    gens=[("hist", gen.gen_hist, 1.0), ("node-churn", gen.gen_C02_nodes_mm, 0.3), ("node-tail", gen.gen_C02_tail, 0.4), ("level-arithmetic", gen.gen_levels, 0.1)], quick=40, thorough=500, rule=_AUDIT_RULE, uses_gen=True,
+    gens=[("hist", gen.gen_hist, 1.0), ("node-churn", gen.gen_C02_nodes_mm, 0.3), ("node-tail", gen.gen_C02_tail, 0.4), ("level-arithmetic", gen.gen_levels, 0.1), ("reordered-sizes", gen.gen_C02_reorder, 0.4)], quick=40, thorough=500, rule=_AUDIT_RULE, uses_gen=True,
     level_text="Proved: mk/apply/build/of_fun only ever return diagrams that satisfy the reduction-rule clauses "
                "(reducedb) for all inputs; the store-level clauses are the executable Gallina audit (20 clauses) "
                "run on the implementation's own node dump at every quiescent point of generated histories; the "
@@ -379,7 +379,7 @@ PROPS["C12"] = dict(
                "clauses 10-12 under each policy), not by a theorem.")
 
 PROPS["C20"] = dict(
-    gens=[("pregen", gen.gen_C20, 0.7), ("pregen-skipped-levels", gen.gen_C20_skip, 0.5), ("pregen-dense", gen.gen_C20_dense, 0.6)], quick=50, thorough=500,
+    gens=[("pregen", gen.gen_C20, 0.7), ("pregen-skipped-levels", gen.gen_C20_skip, 0.5), ("pregen-dense", gen.gen_C20_dense, 0.6), ("pregen-gap", gen.gen_C20_gap, 0.3)], quick=50, thorough=500,
     level_text="Proved: saturation over separately supplied events returns the states reachable under the UNION "
                "of the events, whatever the grouping; it builds the identical diagram as breadth-first "
                "reachability over any diagram of the union. Tie: SATURATION_FORWARD over pregen_relation with "
